@@ -134,10 +134,13 @@ def assignments(f, rng, dbx, quick):
                 v = time(si // 3600, (si % 3600) // 60, si % 60)
             yield name, (v if t == "TIME" else secs), secs, "ok"
         if t == "TIME":
-            # given by value only (a datetime.time, raw_value None): whole seconds, scaled by the field's resolution
-            for name, si in (("time_by_value_midnight", 0), ("time_by_value_mid", rng.randrange(86400)), ("time_by_value_last_second", 86399)):
+            # given by value only (a datetime.time, raw_value None): whole seconds, scaled by the field's resolution; and
+            # times with a sub-second part (the hour, minute and second given must come back, whatever is done with the rest)
+            for name, si, us in (("time_by_value_midnight", 0, 0), ("time_by_value_mid", rng.randrange(86400), 0), ("time_by_value_last_second", 86399, 0),
+                                 ("time_by_value_microseconds", rng.randrange(86399), rng.randrange(1, 1000000)), ("time_by_value_last_microsecond", 86399, 999999),
+                                 ("time_by_value_just_below_next_second", rng.randrange(86399), 999960)):
                 if lo <= Fraction(si) / r <= hi:
-                    yield name, time(si // 3600, (si % 3600) // 60, si % 60), None, "ok"
+                    yield name, time(si // 3600, (si % 3600) // 60, si % 60, us), None, "ok"
         yield "time_absent", None, None, "ok"
         yield "time_oversize", None, float(((1 << bits) + 7) * r), "reject"
         if not f.signed:
@@ -301,7 +304,13 @@ def same_value(f, value, raw, bf):
     if t in ("TIME", "DURATION"):
         if raw is None and value is not None:
             want = value.hour * 3600 + value.minute * 60 + value.second
-            return bf.raw_value is not None and abs(float(bf.raw_value) - want) <= float(f.res) / 2 * (1 + 1e-9), f"the time given ({want} s) must come back"
+            exact = want + value.microsecond / 1e6
+            if bf.raw_value is None or not isinstance(bf.value, time):
+                return False, "value became absent / is no time"
+            tol = float(f.res) / 2 * (1 + 1e-9)
+            near = abs(float(bf.raw_value) - want) <= tol or abs(float(bf.raw_value) - exact) <= tol
+            same_hms = (bf.value.hour, bf.value.minute, bf.value.second) == (value.hour, value.minute, value.second)
+            return near and (same_hms or f.res > 1), f"the time given ({value.isoformat()}) must come back (to the second)"
         if raw is None:
             return bf.raw_value is None, "absent must stay absent"
         if bf.raw_value is None:
